@@ -690,6 +690,21 @@ def c09_removals(tr, out, snaps_by_market, case, tags):
     placements = collections.defaultdict(list)
     for pl in tr.placements:
         placements[pl["o"]].append(pl)
+    # a PENDING order is only excused while its placement is on its way to the exchange (a package was created for it and has not taken
+    # effect yet); an order filed in the blotter and never sent has nothing in flight
+    eff_tick = {}
+    for e in tr.effects:
+        if e["kind"] == "PLACE":
+            eff_tick[e["pid"]] = e["tick"]
+    flight = collections.defaultdict(list)  # order -> [(package tick, effect tick or inf)]
+    for p in tr.packages:
+        if p["kind"] == "PLACE":
+            for o_ in p["orders"]:
+                flight[o_].append((p["tick"], eff_tick.get(p["pid"], float("inf"))))
+
+    def in_flight(o_, t_):
+        return any(a <= t_ <= b for a, b in flight.get(o_, ()))
+
     for o, ss in tr.samples.items():
         if not ss:
             continue
@@ -711,9 +726,11 @@ def c09_removals(tr, out, snaps_by_market, case, tags):
                 vt = {"otype": s["otype"], "state_before": state if t == own_removed_tick else "later", "cause": cause}
                 if s["sm"] != 0 or any(f[2] for f in s["frags"]):
                     out.v("removed-runner-order-still-matched", vt, order=o, sample=s)
-                if s["otype"] == "LIMIT" and s["srem"] != 0 and s["status"] != "PENDING":
+                # (an order filed unsent only AFTER the removal was never on a live runner: nothing to void)
+                excused = s["status"] == "PENDING" and (in_flight(o, t) or ss[0]["tick"] >= own_removed_tick)
+                if s["otype"] == "LIMIT" and s["srem"] != 0 and not excused:
                     out.v("removed-runner-order-has-remaining", vt, order=o, sample=s)
-                if s["phase"] in ("book", "closed") and t > own_removed_tick and not s["complete"] and s["status"] != "PENDING":
+                if s["phase"] in ("book", "closed") and t > own_removed_tick and not s["complete"] and not excused:
                     out.v("removed-runner-order-not-complete", {"otype": s["otype"], "status": s["status"], "cause": cause}, order=o, sample=s)
                 if s["phase"] == "closed" and abs(s.get("profit", 0.0)) > 1e-9:
                     out.v("removed-runner-order-has-profit", vt, order=o, sample=s)
